@@ -16,7 +16,7 @@
 (*                                                                         *)
 (* Values are symbolic: "V:<flag>" is "the value typed after <flag>,       *)
 (* converted as documented" (the harness holds the concrete text and the   *)
-(* converted value), "None" is python's None.                              *)
+(* converted value), "None" / "True" / "False" are python's.               *)
 (*                                                                         *)
 (* Deliberate statements of fact about the present CLI (they are what the  *)
 (* help texts say once read literally, and what the code does):            *)
@@ -52,17 +52,17 @@ Tools == DOMAIN Options
 \* what the API receives for a parameter whose option is absent
 Absent == [
   colander  |-> [variables |-> "None", limit_level |-> "None", output |-> "None"],
-  taste     |-> [limit_level |-> "None", binary_headers |-> TRUE, binary_shape |-> TRUE, binary_data |-> FALSE,
-                 boxes_coordinates |-> FALSE, nofail |-> FALSE, verbose |-> "None"],
+  taste     |-> [limit_level |-> "None", binary_headers |-> "True", binary_shape |-> "True", binary_data |-> "False",
+                 boxes_coordinates |-> "False", nofail |-> "False", verbose |-> "None"],
   combine   |-> [vars1 |-> "None", vars2 |-> "None", pltout |-> "None"],
   chef      |-> [outfile |-> "None", recipe |-> "None", species |-> "None", reactions |-> "None", mech |-> "None",
-                 pressure |-> "None", kept_fields |-> "None", serial |-> FALSE],
-  mandoline |-> [normal |-> "None", pos |-> "None", fields |-> "None", limit_level |-> "None", serial |-> FALSE,
-                 fformat |-> "image", outfile |-> "None", cmap |-> "None", vmin |-> "None", vmax |-> "None", uselog |-> FALSE,
+                 pressure |-> "None", kept_fields |-> "None", serial |-> "False"],
+  mandoline |-> [normal |-> "None", pos |-> "None", fields |-> "None", limit_level |-> "None", serial |-> "False",
+                 fformat |-> "image", outfile |-> "None", cmap |-> "None", vmin |-> "None", vmax |-> "None", uselog |-> "False",
                  verbose |-> "None"],
-  pestle    |-> [field |-> "None", limit_level |-> "None", use_volfrac |-> FALSE],
-  menu      |-> [has_var |-> "None", every |-> FALSE, description |-> FALSE, min_max |-> FALSE, finest_lv |-> FALSE],
-  chk2plt   |-> [target_plotfile |-> "None", species |-> "None", gradp |-> TRUE, species_reactions |-> FALSE, floor_massfracs |-> TRUE,
+  pestle    |-> [field |-> "None", limit_level |-> "None", use_volfrac |-> "False"],
+  menu      |-> [has_var |-> "None", every |-> "False", description |-> "False", min_max |-> "False", finest_lv |-> "False"],
+  chk2plt   |-> [target_plotfile |-> "None", species |-> "None", gradp |-> "True", species_reactions |-> "False", floor_massfracs |-> "True",
                  pltdir |-> "None"]]
 
 Val(flag) == "V:" \o flag
@@ -70,43 +70,44 @@ Meant(tool, given) ==
   [p \in DOMAIN Absent[tool] |->
      IF \E o \in given : o.param = p
      THEN LET o == CHOOSE o \in given : o.param = p
-          IN IF o.kind = "value" THEN Val(o.flag) ELSE o.kind = "on"
+          IN IF o.kind = "value" THEN Val(o.flag) ELSE IF o.kind = "on" THEN "True" ELSE "False"
      ELSE Absent[tool][p]]
 
 -----------------------------------------------------------------------------
 (* Implementation: argparse definitions  flag -> [dest, action, default, type]  and the keyword wiring of main() *)
 A(flag, dest, action, default) == [flag |-> flag, dest |-> dest, action |-> action, default |-> default]
 Parser == [
-  colander  |-> {A("-v", "variables", "store", "None"), A("-l", "limit_level", "store", "None"), A("-s", "serial", "store_true", FALSE),
+  colander  |-> {A("-v", "variables", "store", "None"), A("-l", "limit_level", "store", "None"), A("-s", "serial", "store_true", "False"),
                  A("-o", "output", "store", "None")},
-  taste     |-> {A("-l", "limit_level", "store", "None"), A("-nh", "no_bin_headers", "store_false", TRUE),
-                 A("-ns", "no_bin_shape", "store_false", TRUE), A("-bd", "bin_data", "store_true", FALSE),
-                 A("-bc", "box_coords", "store_true", FALSE), A("-nf", "nofail", "store_true", FALSE), A("-v", "verbose", "store", "None")},
+  taste     |-> {A("-l", "limit_level", "store", "None"), A("-nh", "no_bin_headers", "store_false", "True"),
+                 A("-ns", "no_bin_shape", "store_false", "True"), A("-bd", "bin_data", "store_true", "False"),
+                 A("-bc", "box_coords", "store_true", "False"), A("-nf", "nofail", "store_true", "False"), A("-v", "verbose", "store", "None")},
   combine   |-> {A("-v1", "vars1", "store", "None"), A("-v2", "vars2", "store", "None"), A("-o", "output", "store", "None"),
-                 A("-s", "serial", "store_true", FALSE)},
+                 A("-s", "serial", "store_true", "False")},
   chef      |-> {A("-o", "outdir", "store", "None"), A("-r", "recipe", "store", "None"), A("-s", "species", "store", "None"),
                  A("-R", "reactions", "store", "None"), A("-m", "mech", "store", "None"), A("-p", "pressure", "store", "None"),
                  A("-k", "kept_fields", "store", "None")},
   mandoline |-> {A("-n", "normal", "store", "None"), A("-p", "position", "store", "None"), A("-v", "variables", "store", "None"),
-                 A("-L", "max_level", "store", "None"), A("-s", "serial", "store_true", FALSE), A("-f", "format", "store", "image"),
+                 A("-L", "max_level", "store", "None"), A("-s", "serial", "store_true", "False"), A("-f", "format", "store", "image"),
                  A("-o", "output", "store", "None"), A("-c", "colormap", "store", "None"), A("-m", "minimum", "store", "None"),
-                 A("-M", "maximum", "store", "None"), A("-l", "log", "store_true", FALSE), A("-V", "verbose", "store", "None")},
-  pestle    |-> {A("-v", "variable", "store", "None"), A("-l", "limit_level", "store", "None"), A("-vf", "volfrac", "store_true", FALSE)},
-  menu      |-> {A("-hv", "has_var", "store", "None"), A("-e", "every", "store_true", FALSE), A("-d", "description", "store_true", FALSE),
-                 A("-m", "min_max", "store_true", FALSE), A("-f", "finest_lv", "store_true", FALSE)},
-  chk2plt   |-> {A("-p", "plotfile_ref", "store", "None"), A("-s", "species", "store", "None"), A("-ip", "include_gradp", "store_false", TRUE),
-                 A("-ir", "include_reactions", "store_true", FALSE), A("-f", "floor_massfracs", "store_false", TRUE),
+                 A("-M", "maximum", "store", "None"), A("-l", "log", "store_true", "False"), A("-V", "verbose", "store", "None")},
+  pestle    |-> {A("-v", "variable", "store", "None"), A("-l", "limit_level", "store", "None"), A("-vf", "volfrac", "store_true", "False")},
+  menu      |-> {A("-hv", "has_var", "store", "None"), A("-e", "every", "store_true", "False"), A("-d", "description", "store_true", "False"),
+                 A("-m", "min_max", "store_true", "False"), A("-f", "finest_lv", "store_true", "False")},
+  chk2plt   |-> {A("-p", "plotfile_ref", "store", "None"), A("-s", "species", "store", "None"), A("-ip", "include_gradp", "store_false", "True"),
+                 A("-ir", "include_reactions", "store_true", "False"), A("-f", "floor_massfracs", "store_false", "True"),
                  A("-o", "output", "store", "None")}]
 
 \* argparse: the namespace for a set of flags given; a value the declared type cannot convert makes the parser exit
 Convertible(tool, flag) == ~(tool = "chk2plt" /\ flag = "-s" /\ SpeciesType = "int")
 Namespace(tool, flags) ==
-  IF \E f \in flags : ~Convertible(tool, f) THEN "exit"
-  ELSE [d \in {a.dest : a \in Parser[tool]} |->
-          LET a == CHOOSE a \in Parser[tool] : a.dest = d
-          IN IF a.flag \in flags
-             THEN (IF a.action = "store" THEN Val(a.flag) ELSE a.action = "store_true")
-             ELSE a.default]
+  IF \E f \in flags : ~Convertible(tool, f) THEN [k |-> "exit"]
+  ELSE [k |-> "ns",
+        v |-> [d \in {a.dest : a \in Parser[tool]} |->
+                 LET a == CHOOSE a \in Parser[tool] : a.dest = d
+                 IN IF a.flag \in flags
+                    THEN (IF a.action = "store" THEN Val(a.flag) ELSE IF a.action = "store_true" THEN "True" ELSE "False")
+                    ELSE a.default]]
 
 \* main(): API keyword <- namespace destination (constants as coded: chef is always parallel)
 Wiring == [
@@ -123,8 +124,8 @@ Wiring == [
   menu      |-> [has_var |-> "has_var", every |-> "every", description |-> "description", min_max |-> "min_max", finest_lv |-> "finest_lv"],
   chk2plt   |-> [target_plotfile |-> "plotfile_ref", species |-> "species", gradp |-> "include_gradp",
                  species_reactions |-> "include_reactions", floor_massfracs |-> "floor_massfracs", pltdir |-> "output"]]
-Wired(tool, ns) == IF ns = "exit" THEN "exit"
-                   ELSE [p \in DOMAIN Wiring[tool] |-> IF Wiring[tool][p] = "=FALSE" THEN FALSE ELSE ns[Wiring[tool][p]]]
+Wired(tool, ns) == IF ns.k = "exit" THEN [k |-> "exit"]
+                   ELSE [k |-> "call", kw |-> [p \in DOMAIN Wiring[tool] |-> IF Wiring[tool][p] = "=FALSE" THEN "False" ELSE ns.v[Wiring[tool][p]]]]
 
 -----------------------------------------------------------------------------
 VARIABLES tool, given, pc
@@ -135,6 +136,6 @@ Next == Run
 Spec == Init /\ [][Next]_vars /\ WF_vars(Next)
 
 Flags == {o.flag : o \in given}
-CliRefines == Wired(tool, Namespace(tool, Flags)) = Meant(tool, given)
+CliRefines == Wired(tool, Namespace(tool, Flags)) = [k |-> "call", kw |-> Meant(tool, given)]
 Terminates == <>(pc = "called")
 =============================================================================
